@@ -20,6 +20,10 @@ func protoOrTransport(rel string) bool {
 }
 
 func runC10(p *Prog, r *Report) {
+	channelsNotShared(p, r, "C10.21/channels-not-shared", func(rel string) bool {
+		return strings.HasPrefix(rel, "protocol/") || strings.HasPrefix(rel, "transport") || rel == "internal/core"
+	})
+	r.Floor("C10.21/channels-not-shared", "e13.channel_stores.C10.21/channels-not-shared", 60)
 	timerDiscipline(p, r, "C10.16/timer-discipline", func(rel string) bool { return strings.HasPrefix(rel, "protocol/") })
 	r.Floor("C10.16/timer-discipline", "timer_fields.C10.16/timer-discipline", 4)
 	noGoroutineForRefusedPipe(p, r, "C10.15/no-goroutine-for-refused-pipe")
